@@ -10,7 +10,7 @@
    decoding never re-segments; and the read-back of a quoted field (C14). *)
 From Coq Require Import List ZArith Bool Lia.
 Import ListNotations.
-Require Import Base Cursor Tokenizer Instances TokModel TokModelProofs Quote QuoteProofs Csv CsvConfig CsvRoundtrip.
+Require Import Base Cursor Tokenizer Instances TokModel TokModelProofs Quote QuoteProofs Csv CsvConfig CsvRoundtrip CsvObject CsvObjectProofs CsvObjectRoundtrip.
 Open Scope Z_scope.
 
 Theorem C09_csv_roundtrip : forall seps quotes : list Z,
@@ -63,7 +63,28 @@ Example C09_nonvacuous :
   = Some [[[97]; [98; 44; 10; 34; 99]; []]; [[]; [34]]; [[233]]; [[120]]; [[121]]].
 Proof. vm_compute. reflexivity. Qed.
 
+(* ---- the tokenizer as an OBJECT: whatever sequence of SetFieldSeparators / SetQuoteSymbols calls it went through
+        (accepted or refused: a refused call leaves it as it was), its configuration is a valid one, so the round trip
+        holds for every CSV tokenizer object a program can build through the API ---- *)
+Theorem C09_every_reachable_configuration_is_valid : forall ops, Forall in_range ops -> cfg_valid (fold_left cstep ops cinit).
+Proof. exact reachable_configurations_are_valid. Qed.
+Theorem C09_refused_setter_call_leaves_no_trace : forall o op,
+  (match op with SetSeps l => accepted l (o_quotes o) | SetQuotes l => accepted l (o_seps o) end) = false -> cstep o op = o.
+Proof. exact refused_call_leaves_no_trace. Qed.
+Theorem C09_csv_roundtrip_for_every_object : forall ops eol t, Forall in_range ops ->
+  let o := fold_left cstep ops cinit in
+  eol_ok eol -> table_ok (o_seps o) (o_quotes o) t -> wf_str (write_table eol t) ->
+  csv_read (o_seps o) (o_quotes o) (write_table eol t) = Some (table_fields t).
+Proof. exact csv_roundtrip_for_every_object. Qed.
+Example C09_object_history :
+  fold_left cstep [SetSeps [59; 44]; SetQuotes [39]; SetSeps [39]; SetQuotes [13]; SetSeps [124]; SetQuotes [44; 34]] cinit
+  = {| o_seps := [124]; o_quotes := [44; 34] |}.
+Proof. exact object_history. Qed.
+
 Print Assumptions C09_csv_roundtrip.
+Print Assumptions C09_every_reachable_configuration_is_valid.
+Print Assumptions C09_refused_setter_call_leaves_no_trace.
+Print Assumptions C09_csv_roundtrip_for_every_object.
 Print Assumptions C09_csv_character_table.
 Print Assumptions C09_csv_configuration_well_formed.
 Print Assumptions C09_csv_tokenization_lossless.
